@@ -1,5 +1,6 @@
 pub mod c01;
 pub mod c01m;
+pub mod c01u;
 pub mod c02;
 pub mod c02t;
 pub mod c03;
